@@ -181,6 +181,22 @@ MemClause(fo, oo, p, f, mode) ==
       dbytes == IF p.ds = 0 THEN IntBytes(0, 8) ELSE IF p.ds = 1 THEN IntBytes(dval, 8) ELSE SExt(p.disp, 8)
   IN
   IF p.mod = 3 THEN "mem-mod11"
+  ELSE IF oo.bt = "lbl" THEN
+       (* [label + off]: oo.ld = position of the label relative to the START of the instruction.                                   *)
+       (* 64-bit mode: rip-relative, and rip is the address of the END of the instruction (after a trailing immediate, SDM vol.2     *)
+       (* 2.2.1.6), so disp32 = label + off - (start + length).  32-bit mode: absolute disp32 that is relocated later (C04 owns the   *)
+       (* value), only the form - no base, the requested index - is judged.                                                         *)
+       (LET nobase == p.mod = 0 /\ ((~p.sibP /\ p.rm = 5) \/ (p.sibP /\ p.bas = 5))
+            pidx   == p.idx + 8 * p.X
+            noidx  == ~p.sibP \/ pidx = 4
+        IN IF p.asz # mode THEN "mem-addrsize"
+           ELSE IF mode = 64 THEN
+                (IF hasI \/ p.sibP \/ p.rm # 5 \/ p.mod # 0 THEN "label-memory-form"
+                 ELSE IF SignedOf(p.disp) # oo.ld + SignedOf(Low(oo.d, 4)) - p.total THEN "label-memory-displacement" ELSE "")
+           ELSE IF ~nobase \/ p.ds # 4 THEN "label-memory-form"
+           ELSE IF hasI # ~noidx THEN "label-memory-form"
+           ELSE IF hasI /\ (pidx # oo.i \/ p.ss # oo.sh) THEN "label-memory-form"
+           ELSE "")
   ELSE IF want # 0 /\ want # p.asz THEN "mem-addrsize"
   ELSE IF hasB /\ hasI /\ ~vs /\ oo.bt # "rip" /\ oo.bt # oo.it THEN "mem-mixed-base-index-size"
   ELSE IF p.asz = 16 THEN
